@@ -8,6 +8,7 @@ import nixio
 from nixio.exceptions import DuplicateName
 
 from ..lib import core, storegen
+from . import c03_gen
 from ..lib.core import Failure, Disagreement
 
 PROP = "C03"
@@ -78,8 +79,49 @@ NAMES = storegen.NAMES_PLAIN + storegen.NAMES_UUIDISH
 
 
 # ---------------------------------------------------------------------------------------
+def _run_fixed(ctx, ops, tag):
+    """a fixed op list (corpus) through the implementation; returns the outputs"""
+    path = ctx.tmpfile("c03-corpus-%s.nix" % tag)
+    impl = c03_gen.ImplX(path, literal_uuid_names=(storegen.LIT_UUID,))
+    try:
+        return [impl.run(op) if op[0] != "noop" else {"ok": None} for op in ops]
+    finally:
+        impl.close()
+        try:
+            os.remove(path)
+        except OSError:
+            pass
+
+
+def _uuid_pin(ctx, n):
+    """`Py.uuidAccepts` (complete model of uuid.UUID(text) acceptance) against nixio.util.is_uuid over generated
+    spellings; `Store.pyIsUuid` (the dispatch function of the structural model) against it on the names the
+    histories use and on the canonical spellings"""
+    from nixio.util import util as nixutil
+    rng = random.Random("%s/uuid/%d" % (PROP, ctx.seed))
+    fam = c03_gen.uuid_family(rng, n)
+    domain = list(NAMES) + storegen.NAMES_BAD + [str(uuid.UUID(int=rng.getrandbits(128))) for _ in range(40)]
+    domain += [x.upper() for x in domain[-10:]] + ["{%s}" % x for x in domain[-10:]] + \
+              ["urn:uuid:%s" % x for x in domain[-10:]] + [x.replace("-", "") for x in domain[-10:]]
+    outs = core.run_driver(PROP, [["is_uuid", x] for x in fam + domain])
+    dis, accepted, simple_dev = [], 0, 0
+    for k, (x, o) in enumerate(zip(fam + domain, outs)):
+        py = bool(nixutil.is_uuid(x))
+        accepted += py
+        m, simple = (o.get("ok") or [None, None])
+        if m != py:
+            dis.append(Disagreement({"is_uuid": x}, {"ok": m}, {"ok": py}))
+        if simple != py:
+            if k >= len(fam):
+                dis.append(Disagreement({"is_uuid(dispatch model, histories' domain)": x}, {"ok": simple}, {"ok": py}))
+            else:
+                simple_dev += 1
+    return dis, {"spellings": len(fam), "domain": len(domain), "accepted_by_cpython": accepted,
+                 "dispatch_model_differs_outside_domain": simple_dev}
+
+
 def correspondence(ctx):
-    n_hist = ctx.budget(30, 240)
+    n_hist = ctx.budget(24, 240)
     steps = ctx.budget(45, 70)
     disagreements = []
     total = 0
@@ -87,10 +129,24 @@ def correspondence(ctx):
     errs = {}
     seen = set()
     samples = []
+    # corpus first: minimised past disagreements / repaired defects
+    for ci, case in enumerate(core.load_corpus(PROP)):
+        ops = case["ops"]
+        outs = _run_fixed(ctx, ops, str(ci))
+        model = core.run_driver(PROP, [["reset"]] + ops)[1:]
+        for k, op, m, i in storegen.compare(ops, outs, model):
+            disagreements.append(Disagreement({"corpus": case.get("name", ci), "index": k, "op": op, "prefix": ops[:k + 1]},
+                                              m, i))
+        for k, want in (case.get("expect") or {}).items():
+            if outs[int(k)] != want:
+                disagreements.append(Disagreement({"corpus": case.get("name", ci), "index": int(k), "op": ops[int(k)],
+                                                   "prefix": ops[:int(k) + 1]}, want, outs[int(k)]))
+        total += len(ops)
     for h in range(n_hist):
         rng = random.Random("%s/%d/%d" % (PROP, ctx.seed, h))
         profile = ["create_delete", "mixed", "links"][h % 3]
-        ops, outs = storegen.run_history(ctx, rng, steps, profile, "c03-%d" % h, reopen_prob=0.04)
+        ops, outs = c03_gen.run_history(ctx, rng, steps, profile, "c03-%d" % h, reopen_prob=0.04,
+                                        share=[0.45, 0.25, 0.3][h % 3])
         model = core.run_driver(PROP, [["reset"]] + ops)[1:]
         for k, op, m, i in storegen.compare(ops, outs, model):
             disagreements.append(Disagreement({"history": h, "index": k, "op": op,
@@ -98,19 +154,30 @@ def correspondence(ctx):
         total += len(ops)
         for op, o in zip(ops, outs):
             dist[op[0]] = dist.get(op[0], 0) + 1
+            if op[0] in ("create", "del", "append", "list", "get", "has"):
+                key = "%s:%s" % (op[0], op[2])
+                dist[key] = dist.get(key, 0) + 1
             if "err" in o:
                 errs[o["err"]] = errs.get(o["err"], 0) + 1
+                if o["err"] == "DuplicateName":
+                    key = "DuplicateName:%s" % (op[2] if op[0] == "create" else op[0])
+                    errs[key] = errs.get(key, 0) + 1
             if op[0] not in ("noop", "dump") and ("err" in o or o.get("ok") not in (None, [], 0, False)):
                 seen.add(core.canon(op))
         if h < 2:
             samples.append({"history": h, "first_ops": ops[:6], "first_outputs": outs[:6]})
+    udis, udist = _uuid_pin(ctx, ctx.budget(4000, 60000))
+    disagreements += udis
+    total += udist["spellings"] + udist["domain"]
     return {"evaluations": total, "distinct_nontrivial": len(seen),
             "rule": "adaptive random histories (profiles create_delete / mixed / links) over blocks, sections and sources "
-                    "at any depth, groups, arrays, tags, multi-tags, properties, features and link lists, names from "
-                    "plain / non-ASCII / 300-char / '..' / UUID-looking pools; every access path of the touched container "
-                    "queried after each step; reopen inserted at random; final HDF5-level dump compared. non-trivial = "
-                    "distinct op (canonical JSON) whose result is an error or a non-empty value",
-            "samples": samples, "distribution": {"ops": dist, "impl_errors": errs},
+                    "at any depth, groups, arrays, frames, tags, multi-tags (positions as array or as raw data: "
+                    "auto-created arrays), properties, features and link lists, names from plain / non-ASCII / 300-char "
+                    "/ '..' / UUID-looking pools and, on purpose, names already used by the same kind and by other kinds "
+                    "of the same block; every access path of the touched container queried after each step; reopen "
+                    "inserted at random; final HDF5-level dump compared. Then uuid.UUID(text) acceptance over generated "
+                    "spellings. non-trivial = distinct op (canonical JSON) whose result is an error or a non-empty value",
+            "samples": samples, "distribution": {"ops": dist, "impl_errors": errs, "uuid": udist},
             "disagreements": disagreements, "exhaustive": False}
 
 
